@@ -1,6 +1,7 @@
 package main
 
 import (
+	"os/exec"
 	"encoding/json"
 	"flag"
 	"fmt"
@@ -26,6 +27,25 @@ type PropMeta struct {
 	Claim      string   `json:"claim"`
 	Engines    []string `json:"engines"` // extra engines: callsites, ...
 	Packages   []string `json:"packages"`
+	Bounded    []BoundedCheck `json:"bounded"`
+}
+
+// BoundedCheck is a bounded stand-in (never counted as proved): a Go test kept under /verif that enumerates a
+// stated finite input space against the REAL functions of a package, injected with go test -overlay.
+type BoundedCheck struct {
+	Name  string `json:"name"`
+	Pkg   string `json:"pkg"`   // package directory relative to the repo
+	File  string `json:"file"`  // test source relative to /verif
+	Run   string `json:"run"`   // test name
+	Bound string `json:"bound"` // the stated bound
+}
+
+type boundedResult struct {
+	BoundedCheck
+	OK          bool
+	Evaluations int
+	Output      string
+	Secs        float64
 }
 
 type options struct {
@@ -102,6 +122,7 @@ type checkResult struct {
 	wall      float64
 	solveSecs float64
 	extra     map[string]any
+	bounded   []*boundedResult
 }
 
 func readOverlay(path string) (map[string][]byte, error) {
@@ -187,6 +208,11 @@ func runCheck(o *options, overlay map[string][]byte) (*checkResult, error) {
 	}
 	w.runFieldInvs(o, res)
 	w.runLemmas(o, res)
+	if o.only == "" {
+		for _, b := range meta.Bounded {
+			res.bounded = append(res.bounded, runBounded(o, b, overlay))
+		}
+	}
 	for _, r := range res.reports {
 		if r.Ctx == nil {
 			continue
@@ -431,6 +457,23 @@ func report(o *options, res *checkResult) int {
 		fmt.Printf("VIOLATION property=%s replay=%s obligation=%s status=%s (%s)%s\n", o.prop, path, ob.Name, ob.Result.Status, relPos(ob.Pos), suffix)
 		exit = 1
 	}
+	for _, b := range res.bounded {
+		if b.OK {
+			continue
+		}
+		path := filepath.Join(replayDir, "bounded."+sanitizeFile(b.Name)+".json")
+		if !o.noEvid {
+			_ = os.MkdirAll(replayDir, 0o755)
+			rec := map[string]any{"property": o.prop, "obligation": "bounded." + b.Name, "kind": "bounded", "bound": b.Bound, "package": b.Pkg,
+				"test_file": filepath.Join(o.verif, b.File), "command": "go test -overlay <" + b.File + " injected into " + b.Pkg + "> -run ^" + b.Run + "$", "output": truncate(b.Output, 20000),
+				"replay_note": "bounded check on the real code: the output names the failing input"}
+			data, _ := json.MarshalIndent(rec, "", " ")
+			_ = os.WriteFile(path, data, 0o644)
+		}
+		fmt.Printf("VIOLATION property=%s replay=%s obligation=bounded.%s status=counterexample-on-real-code (%s)\n", o.prop, path, b.Name, b.Pkg)
+		violations = append(violations, nil)
+		exit = 1
+	}
 	for _, e := range res.errors {
 		fmt.Printf("ERROR property=%s %s\n", o.prop, e)
 		if exit == 0 {
@@ -626,6 +669,14 @@ func writeEvidence(o *options, res *checkResult, violations int) {
 		"load_s":                    round3(res.world.LoadSecs),
 		"engine_errors":             res.errors,
 	}
+	if len(res.bounded) > 0 {
+		var bl []map[string]any
+		for _, b := range res.bounded {
+			bl = append(bl, map[string]any{"name": b.Name, "package": b.Pkg, "bound": b.Bound, "evaluations": b.Evaluations, "passed": b.OK, "time_s": round3(b.Secs),
+				"note": "bounded stand-in on the real code, NOT counted under obligations/discharged"})
+		}
+		cov["bounded"] = bl
+	}
 	for k, v := range res.extra {
 		if k != "functions" && k != "trusted" {
 			cov[k] = v
@@ -720,4 +771,42 @@ func stripSort(s string) string {
 		return ""
 	}
 	return s[sp:]
+}
+
+
+// runBounded runs one bounded stand-in against the real package (test injected through an overlay, nothing written to the repo).
+func runBounded(o *options, b BoundedCheck, overlay map[string][]byte) *boundedResult {
+	r := &boundedResult{BoundedCheck: b}
+	start := time.Now()
+	dir, err := os.MkdirTemp("", "govc-bounded-")
+	if err != nil {
+		r.Output = err.Error()
+		return r
+	}
+	defer os.RemoveAll(dir)
+	rep := map[string]string{filepath.Join(o.repo, b.Pkg, "zz_govc_bounded_test.go"): filepath.Join(o.verif, b.File)}
+	i := 0
+	for path, data := range overlay {
+		// selftest mutants and -overlay files apply to the bounded run as well
+		i++
+		f := filepath.Join(dir, fmt.Sprintf("ov%d.go", i))
+		_ = os.WriteFile(f, data, 0o644)
+		rep[path] = f
+	}
+	ov, _ := json.Marshal(map[string]any{"Replace": rep})
+	ovFile := filepath.Join(dir, "overlay.json")
+	_ = os.WriteFile(ovFile, ov, 0o644)
+	cmd := exec.Command("go", "test", "-overlay", ovFile, "-vet=off", "-count=1", "-timeout", "300s", "-run", "^"+b.Run+"$", "-v", "./"+b.Pkg+"/")
+	cmd.Dir = o.repo
+	cmd.Env = append(os.Environ(), "GOFLAGS=-mod=mod", "GOPROXY=off", "GOSUMDB=off", "GOTOOLCHAIN=local", "PATH=/opt/veriftools/go1.26.8/bin:"+os.Getenv("PATH"))
+	out, err := cmd.CombinedOutput()
+	r.Output = string(out)
+	r.Secs = time.Since(start).Seconds()
+	for _, l := range strings.Split(r.Output, "\n") {
+		if k := strings.Index(l, "BOUNDED-EVALUATIONS:"); k >= 0 {
+			fmt.Sscanf(strings.TrimSpace(l[k+len("BOUNDED-EVALUATIONS:"):]), "%d", &r.Evaluations)
+		}
+	}
+	r.OK = err == nil && r.Evaluations > 0 && strings.Contains(r.Output, "--- PASS: "+b.Run)
+	return r
 }
